@@ -255,10 +255,14 @@ func (evkg EvaluationKeyGenProtocol) GenEvaluationKey(share EvaluationKeyGenShar
 	m := share.Value
 	p := crp.Value
 
-	BaseRNSDecompositionVectorSize := len(m)
-	BaseTwoDecompositionVectorSize := len(m[0])
-	for i := 0; i < BaseRNSDecompositionVectorSize; i++ {
-		for j := 0; j < BaseTwoDecompositionVectorSize; j++ {
+	if !slices.Equal(share.BaseTwoDecompositionVectorSize(), crp.BaseTwoDecompositionVectorSize()) ||
+		!slices.Equal(share.BaseTwoDecompositionVectorSize(), evk.BaseTwoDecompositionVectorSize()) {
+		return fmt.Errorf("cannot GenEvaluationKey: share, crp and evk decompositions do not match")
+	}
+
+	// The number of power-of-two digits depends on the RNS digit (bit-size of the prime).
+	for i := range m {
+		for j := range m[i] {
 			evk.Value[i][j][0].Copy(m[i][j][0])
 			evk.Value[i][j][1].Copy(p[i][j])
 		}
